@@ -113,8 +113,19 @@ func (r *simpleRequest) Body() *RespValue {
 }
 
 func (r *simpleRequest) IsReadOnly() bool {
-	_, ok := readOnlyCommands[string(bytes.ToLower(r.body.Array[0].Text))]
-	return ok
+	cmd := string(bytes.ToLower(r.body.Array[0].Text))
+	if _, ok := readOnlyCommands[cmd]; !ok {
+		return false
+	}
+	// SORT with the STORE option writes the result to a key.
+	if cmd == "sort" && len(r.body.Array) > 2 {
+		for _, arg := range r.body.Array[2:] {
+			if bytes.EqualFold(arg.Text, []byte("store")) {
+				return false
+			}
+		}
+	}
+	return true
 }
 
 func (r *simpleRequest) Duration() time.Duration {
